@@ -148,6 +148,11 @@ def lp_lines(case, tighten=False):
             for sg in rels:
                 if all(c == 0 for c in row):
                     if sg * k < 0: ok = False
+                    # a strict row over integer variables only, with integer coefficients and constant, is exact: no tolerance
+                    # applies (x1 < x0 with x0 = 2 excludes x1 = 2)
+                    if r.rel in ("lt", "gt") and sg * k == 0 and r.const.denominator == 1 and \
+                            all(c.denominator == 1 for c in r.coeffs.values()) and not any(v in fv for v in r.coeffs):
+                        ok = False
                 else:
                     A.append([sg * c for c in row]); b.append(sg * k)
         if not ok:
